@@ -85,6 +85,6 @@ def gen_cases4(tier, rng):
                                                      ["poolnew", 0, [["p", "Zn", 12], ["l", "A"], ["p", "B", 1]]], ["molmap", 0, [], True, True]])]
     for m in X.mutators():
         cases.append(dict(kind="h4-repr", n=2, k=2, ops=fix_ops(PRE4 + [m])))
-    for _ in range(120 if tier == "quick" else 1500):
+    for _ in range(120 if tier == "quick" else 900):
         cases.append(dict(kind="h4-repr", n=3, k=2, ops=fix_ops(X._rand_hist2(rng, 24, 3))))
     return cases
